@@ -6,6 +6,8 @@ BINARIES = {
     'c10pie': {'pkg': './cmd/c10', 'overlay': 'plain', 'flags': _FLAGS + ['-buildmode=pie']},
     # externally linked (cgo) binary with its symbol table: the link mode of goom's own root-package tests
     'c10cgo': {'pkg': './cmd/c10cgo', 'overlay': 'plain', 'flags': _FLAGS},
+    # externally linked and stripped: the function table is offset from the run-time addresses and the symbol table is gone
+    'c10cgos': {'pkg': './cmd/c10cgo', 'overlay': 'plain', 'flags': _FLAGS + ['-ldflags=-s']},
     'c10race': {'pkg': './cmd/c10cgo', 'overlay': 'plain', 'flags': ['-race', '-gcflags=all=-l -d=checkptr=0']},
 }
 
@@ -15,7 +17,7 @@ SPEC = {
     'technique': 'exhaustive enumeration of the running binary\'s own symbol tables (every function-table entry, every ELF '
                  'symbol, 204 generated package variables) and of five near-miss mutations of every name, against '
                  'goom-independent ground truth (runtime.FuncForPC walk of all executable pages, &v, debug/elf + debug/gosym), '
-                 'in four link configurations (default, -s, PIE, external/cgo)',
+                 'in five link configurations (default, -s, PIE, external/cgo, external/cgo -s)',
     'claim': 'for every name in the tables of the three test binaries (default link, -ldflags=-s, -buildmode=pie), through '
              'FindFuncByName and FindVarByName, and for every near-miss of every name: the result is an error (or panic) or '
              'the exact run-time address of a symbol that bears exactly the queried name; in the default link mode every '
@@ -28,6 +30,7 @@ SPEC = {
         {'bin': 'c10s', 'shards': 4, 'sub': 'strip'},
         {'bin': 'c10pie', 'shards': 4, 'sub': 'pie'},
         {'bin': 'c10cgo', 'shards': 4, 'sub': 'cgo'},
+        {'bin': 'c10cgos', 'shards': 4, 'sub': 'cgostrip'},
         # fault sequences: shard index = which of the process' first three lookups cannot open the executable
         {'bin': 'c10cgo', 'shards': 8, 'sub': 'cgo-fault'},
         {'bin': 'c10', 'shards': 8, 'sub': 'default-fault'},
